@@ -24,20 +24,33 @@ type verifC42Conn struct {
 	next   int
 	closed int
 	opened bool // handed out by Accept
+	touched bool          // the server has read from it (it is being served)
+	linger  chan struct{} // when set: the client keeps the connection open after its last request until this is closed
 }
 
 func (c *verifC42Conn) Read(p []byte) (int, error) {
 	panic("read through the abstract IPC reader only")
 }
 func (c *verifC42Conn) Write(p []byte) (int, error)        { return len(p), nil }
-func (c *verifC42Conn) Close() error                       { c.closed++; return nil }
+func (c *verifC42Conn) Close() error {
+	c.closed++
+	verifC42ClosedConns++
+	if verifC42ClosedConns == verifC42LateAfter && verifC42Late != nil {
+		close(verifC42Late)
+	}
+	return nil
+}
 func (c *verifC42Conn) LocalAddr() net.Addr                { return nil }
 func (c *verifC42Conn) RemoteAddr() net.Addr               { return nil }
 func (c *verifC42Conn) SetDeadline(t time.Time) error      { return nil }
 func (c *verifC42Conn) SetReadDeadline(t time.Time) error  { return nil }
 func (c *verifC42Conn) SetWriteDeadline(t time.Time) error { return nil }
 func (c *verifC42Conn) verifNextStream() (*verifInStream, bool) {
+	c.touched = true
 	if c.next >= len(c.queue) {
+		if c.linger != nil {
+			<-c.linger // an idle but open connection: the client is in no hurry
+		}
 		return nil, false // the client has closed its side
 	}
 	c.next++
@@ -60,6 +73,10 @@ var (
 	verifC42IdleClose   bool // the listener was closed from inside a timer callback
 	verifC42InTimer     bool
 	verifC42OpenAtIdle  int // connections handed out by Accept and not yet closed when the idle close happened
+	verifC42ServedAtIdle int // ... of which the server had already read from (counted and being served)
+	verifC42ClosedConns int
+	verifC42LateAfter   int           // once this many connections were closed ...
+	verifC42Late        chan struct{} // ... this is closed (the lingering client then hangs up)
 	verifC42Conns       []*verifC42Conn
 	verifC42Timers      []*verifC42Timer
 	verifC42FS          []string // file-system events, in order
@@ -80,6 +97,7 @@ func verifC42Reset() {
 	verifC42Pending = make(chan *verifC42Conn, 4)
 	verifC42ClosedCh = make(chan struct{})
 	verifC42ListenerUp, verifC42Closes, verifC42IdleClose, verifC42InTimer, verifC42OpenAtIdle = false, 0, false, false, 0
+	verifC42ServedAtIdle, verifC42ClosedConns, verifC42LateAfter, verifC42Late = 0, 0, 0, nil
 	verifC42Conns, verifC42Timers, verifC42FS = nil, nil, nil
 	verifC42Mode, verifC42BoundAt, verifC42AcceptsAt, verifC42FirstAccept = 0, -1, -1, false
 	verifC42Armed = make(chan *verifC42Timer, 16)
@@ -146,6 +164,11 @@ func verifC42Close(l *net.UnixListener) error {
 		if verifC42InTimer {
 			verifC42IdleClose = true
 			verifC42OpenAtIdle = verifC42OpenConns()
+			for _, c := range verifC42Conns {
+				if c.opened && c.closed == 0 && c.touched {
+					verifC42ServedAtIdle++
+				}
+			}
 		}
 		close(verifC42ClosedCh)
 	}
@@ -313,7 +336,8 @@ func verifC42CheckConnections(conns []*verifC42Conn, idle time.Duration) {
 		}
 		if verifC42IdleClose {
 			verifReach("idle-shutdown")
-			verifAssert(verifC42OpenAtIdle == 0, "the idle timer stops the listener only when no connection is open")
+			verifAssert(verifC42ServedAtIdle == 0, "the idle timer never stops the listener while a connection that is being served is open")
+			verifAssert(verifC42OpenAtIdle == verifC42ServedAtIdle, "the idle timer stops the listener only when no connection is open")
 		}
 	}
 	if nconn > 0 && conns[0].opened {
@@ -322,3 +346,102 @@ func verifC42CheckConnections(conns []*verifC42Conn, idle time.Duration) {
 }
 
 var _ = errors.New
+
+
+// A serve-start hook that fails for the first connection must not unbalance the
+// count of open connections the idle timer relies on.
+//
+//verif:use ipc pipe handler
+//verif:sched quick=0 thorough=1
+//verif:stub os/signal.Ignore = verifC42SignalIgnore
+//verif:stub os.Remove = verifC42Remove
+//verif:stub os.Chmod = verifC42Chmod
+//verif:stub net.Listen = verifC42Listen
+//verif:stub (*net.UnixListener).Accept = verifC42Accept
+//verif:stub (*net.UnixListener).Close = verifC42Close
+//verif:stub (*net.TCPListener).Accept = verifC42AcceptTCP
+//verif:stub (*net.TCPListener).Close = verifC42CloseTCP
+//verif:stub (*net.TCPListener).Addr = verifC42AddrTCP
+//verif:stub time.AfterFunc = verifC42AfterFunc
+//verif:stub (*time.Timer).Stop = verifC42TimerStop
+//verif:bound RunUnix or RunTcp with an idle timeout of 5 s and a serve-start hook that fails its first invocation (and succeeds afterwards); three client connections of one unary call each, the second of which stays open after its call until the other two are closed (an idle but open connection); the clock fires every armed timer unless it was stopped first; ALL interleavings at blocking points (thorough: plus 1 preemption). Models as in verifH_C42_unix_listener
+func verifH_C42_idle_with_hook_failure() {
+	verifC42Reset()
+	s := verifPipeServer()
+	hookCalls := 0
+	s.serveStartHook = func(kind TransportKind, caps map[string]bool) error {
+		hookCalls++
+		if hookCalls == 1 {
+			return errors.New("startup hook failed")
+		}
+		return nil
+	}
+	idle := 5 * time.Second
+	verifHFn = func(ctx context.Context, cc *CallContext) (interface{}, error) {
+		return int(cc.RequestID[0])*100 + int(cc.RequestID[1]), nil
+	}
+	conns := []*verifC42Conn{verifC42NewConn(0, 1), verifC42NewConn(1, 1), verifC42NewConn(2, 1)}
+	conns[1].linger = make(chan struct{})
+	verifC42Late, verifC42LateAfter = make(chan struct{}), 2
+	verifC42Expect = 3
+	var env sync.WaitGroup
+	env.Add(3)
+	go func() {
+		defer env.Done()
+		for _, c := range conns {
+			verifC42Pending <- c
+		}
+	}()
+	go func() { // the lingering client hangs up once the other two are done — or when the server is gone
+		defer env.Done()
+		select {
+		case <-verifC42Late:
+		case <-verifC42ClosedCh:
+		}
+		close(conns[1].linger)
+	}()
+	go func() {
+		defer env.Done()
+		for t := range verifC42Armed {
+			verifC42Fire(t)
+		}
+	}()
+	var err error
+	tcp := verifNondetBool("tcp")
+	if tcp {
+		err = s.RunTcp("", 0, idle, nil)
+	} else {
+		err = s.RunUnix("/tmp/sock", idle, nil)
+	}
+	verifReach("returned-after-hook-failure")
+	close(verifC42Armed)
+	env.Wait()
+	verifAssert(err == nil, "the listener returns without error")
+	refused, served := 0, 0
+	for _, c := range conns {
+		if !c.opened {
+			continue
+		}
+		verifAssert(c.closed == 1, "every accepted connection is closed exactly once before the listener returns")
+		n := 0
+		for _, st := range verifOutStreams {
+			if cc, ok := st.sink.(*verifC42Conn); ok && cc == c {
+				n++
+				verifAssert(st.closed && len(st.batches) == 1 && st.batches[0].tag == int('a'+c.id)*100+int('0'), "an answer is the answer to the connection's own request")
+			}
+		}
+		if n == 0 {
+			refused++
+		} else {
+			served++
+		}
+	}
+	verifAssert(refused <= 1 && (hookCalls == 0 || refused == 1), "exactly the connection whose hook run failed is dropped unserved")
+	if verifC42IdleClose {
+		verifReach("idle-shutdown-after-hook-failure")
+		verifAssert(verifC42ServedAtIdle == 0, "the idle timer never stops the listener while a connection that is being served is open")
+	}
+	if served >= 2 {
+		verifReach("two-served-after-refusal")
+	}
+}
